@@ -30,6 +30,12 @@ func (mp *ConsensusMessagesFilter) HandleConsensusMessage(message interfaces.Con
 		return errors.Errorf("Out of committee - ignoring message %s H=%d V=%d", message.MessageType(), message.BlockHeight(), message.View())
 	}
 
+	// the message type inside the signed header must be the one of the envelope: stored signatures are
+	// later copied into prepared proofs and block proofs, whose headers are rebuilt with the expected type
+	if expected, ok := expectedMessageType(message); ok && message.MessageType() != expected {
+		return errors.Errorf("signed header message type %s does not match the message kind %s", message.MessageType(), expected)
+	}
+
 	switch message := message.(type) {
 	case *interfaces.PreprepareMessage:
 		mp.handler.HandlePrePrepare(message)
@@ -60,4 +66,20 @@ func (mp *ConsensusMessagesFilter) HandleConsensusMessage(message interfaces.Con
 	}
 
 	return nil
+}
+
+func expectedMessageType(message interfaces.ConsensusMessage) (protocol.MessageType, bool) {
+	switch message.(type) {
+	case *interfaces.PreprepareMessage:
+		return protocol.LEAN_HELIX_PREPREPARE, true
+	case *interfaces.PrepareMessage:
+		return protocol.LEAN_HELIX_PREPARE, true
+	case *interfaces.CommitMessage:
+		return protocol.LEAN_HELIX_COMMIT, true
+	case *interfaces.ViewChangeMessage:
+		return protocol.LEAN_HELIX_VIEW_CHANGE, true
+	case *interfaces.NewViewMessage:
+		return protocol.LEAN_HELIX_NEW_VIEW, true
+	}
+	return 0, false
 }
